@@ -19,6 +19,7 @@ META = {
     "assumptions": [],
     "not_decided": [],
 }
+TECHNIQUE = 'decision table of compare_with by evaluation (parse order, side tags, error pass-through), wrapper forwarding by abstract evaluation, decoder evaluation'
 PARSE = "core::str::<impl str>::parse"
 
 
